@@ -26,6 +26,14 @@ class _Return(Exception):
         self.value = value
 
 
+class _Break(Exception):
+    pass
+
+
+class _Continue(Exception):
+    pass
+
+
 class PathRaises(Exception):
     """The explored path ends in a `raise`."""
 
@@ -103,6 +111,16 @@ class SymList:
         return f"<symlist {self.name}>"
 
 
+class Partial:
+    """functools.partial(f, *args, **kwargs) / operator.methodcaller / itemgetter / attrgetter: a callable the interpreter can apply"""
+
+    def __init__(self, kind, target, args=(), kwargs=None):
+        self.kind, self.target, self.args, self.kwargs = kind, target, tuple(args), dict(kwargs or {})
+
+    def __repr__(self):
+        return f"<{self.kind} {self.target!r}>"
+
+
 class MapList:
     """[body for elem in src]"""
 
@@ -148,6 +166,7 @@ class Interp:
             self.visited = set()  # qualified names of every repository function whose body was interpreted (kept across explorations)
             self.n_calls = 0
         self.loop_stack = []
+        self.loop_kinds = []
 
     # ------------------------------------------------------------------ driver
     def explore(self, target, args=(), kwargs=None, self_obj=None, max_paths=64):
@@ -296,6 +315,24 @@ class Interp:
             return self.call_function(f.fi, args, kwargs, self_obj=f.self_obj, closure=f)
         if isinstance(f, ClassRef):
             return self.instantiate(f, args, kwargs, node)
+        if isinstance(f, Partial):
+            if f.kind == "partial":
+                return self.call_value(f.target, list(f.args) + list(args), dict(f.kwargs, **kwargs), node)
+            if f.kind == "methodcaller":
+                m_ = self.getattr_value(args[0], f.target, node, call=True)
+                if isinstance(m_, tuple) and m_ and isinstance(m_[0], str) and m_[0].endswith("_method"):
+                    return self.call_builtin_method(m_, list(f.args), dict(f.kwargs), node, None)
+                return self.call_value(m_, list(f.args), dict(f.kwargs), node)
+            if f.kind == "itemgetter":
+                base_ = args[0]
+                if isinstance(base_, Obj) and "namedtuple" in base_.tags:
+                    base_ = tuple(self.nt_values(base_))
+                if len(f.args) == 1:
+                    k_ = f.args[0]
+                    return base_[k_] if isinstance(base_, (list, tuple, dict)) else Op("getitem", (base_, k_))
+                return tuple(base_[k_] if isinstance(base_, (list, tuple, dict)) else Op("getitem", (base_, k_)) for k_ in f.args)
+            if f.kind == "attrgetter":
+                return self.getattr_value(args[0], f.args[0], node)
         if isinstance(f, ExtRef):
             return self.call_ext(f.name, args, kwargs, node)
         if isinstance(f, Obj):
@@ -319,20 +356,51 @@ class Interp:
             return self.call_ext(q, args, kwargs, node)
         obj = Obj(q, f"{q.rsplit('.', 1)[-1].lower()}#{self.fresh_id}")
         self.fresh_id += 1
-        for rb in self.prog.classes[q].node.bases:
-            if isinstance(rb, ast.Call) and ast.unparse(rb.func).endswith("namedtuple"):
-                fields = [e.value for e in rb.args[1].elts]
-                for f_, v_ in zip(fields, args):
-                    obj.attrs[f_] = v_
-                for f_ in fields:
-                    if f_ in kwargs:
-                        obj.attrs[f_] = kwargs[f_]
-                obj.tags.add("namedtuple")
-                return obj
+        fields = self.namedtuple_fields(q)
+        if fields is not None:
+            names_, defaults_ = fields
+            for f_, v_ in zip(names_, args):
+                obj.attrs[f_] = v_
+            for f_ in names_:
+                if f_ in kwargs:
+                    obj.attrs[f_] = kwargs[f_]
+                elif f_ not in obj.attrs and f_ in defaults_:
+                    ci_ = self.prog.classes[q]
+                    obj.attrs[f_] = self.eval(defaults_[f_], {"__module__": ci_.module, "__parent__": None, "__cls__": q})
+            missing_ = [f_ for f_ in names_ if f_ not in obj.attrs]
+            if missing_:
+                raise PathRaises(f"TypeError: missing field {missing_[0]}", node)
+            obj.attrs["__fields__"] = list(names_)
+            obj.tags.add("namedtuple")
+            return obj
         init = self.prog.lookup_method(q, "__init__")
         if init is not None:
             self.call_function(init, args, kwargs, self_obj=obj)
         return obj
+
+    def namedtuple_fields(self, q):
+        """(field names in order, {name: default expr}) if class q is a named tuple: `class X(NamedTuple): a: T; b: T = d` (own or inherited
+        through a mixin) or `class X(namedtuple("X", [...]))`"""
+        for c in self.prog.mro(q):
+            ci = self.prog.classes.get(c)
+            if ci is None:
+                continue
+            for rb in ci.node.bases:
+                if isinstance(rb, ast.Call) and ast.unparse(rb.func).endswith("namedtuple") and len(rb.args) > 1 and isinstance(rb.args[1], (ast.List, ast.Tuple)):
+                    return [e.value for e in rb.args[1].elts], {}
+                if ast.unparse(rb).split(".")[-1] == "NamedTuple":
+                    names, defaults = [], {}
+                    for st in ci.node.body:
+                        if isinstance(st, ast.AnnAssign) and isinstance(st.target, ast.Name):
+                            names.append(st.target.id)
+                            if st.value is not None:
+                                defaults[st.target.id] = st.value
+                    return names, defaults
+        return None
+
+    @staticmethod
+    def nt_values(o):
+        return [o.attrs[f_] for f_ in o.attrs.get("__fields__", [k for k in o.attrs if not k.startswith("__")])]
 
     # ------------------------------------------------------------------ externals
     def call_ext(self, name, args, kwargs, node):
@@ -354,6 +422,51 @@ class Interp:
                 elif a_ is not None:
                     raise Unsupported(f"_parse_to argument {a_!r}")
             return (dev, dt, False, None)
+        if name == "functools.partial":
+            return Partial("partial", args[0], args[1:], kwargs)
+        if name == "functools.reduce":
+            fn_, seq_ = args[0], self.strip_iter(args[1])
+            if not isinstance(seq_, (list, tuple)):
+                # a fold over a sequence of unknown length: the loop `acc = init; for x in seq: acc = fn(acc, x)`
+                if len(args) < 3:
+                    raise Unsupported("functools.reduce over a symbolic sequence without initial value")
+                holder = {"__module__": "pfhedge", "__parent__": None, "__cls__": None, "__acc__": args[2], "__fn__": fn_, "__seq__": args[1]}
+                loop = ast.parse("for __x__ in __seq__:\n    __acc__ = __fn__(__acc__, __x__)\n").body[0]
+                self.exec_stmt(loop, holder)
+                return holder["__acc__"]
+            it_ = list(seq_)
+            acc_ = args[2] if len(args) > 2 else it_.pop(0)
+            for x_ in it_:
+                acc_ = self.call_value(fn_, [acc_, x_], {}, node)
+            return acc_
+        if name == "operator.methodcaller":
+            return Partial("methodcaller", args[0], args[1:], kwargs)
+        if name == "operator.itemgetter":
+            return Partial("itemgetter", None, args)
+        if name == "operator.attrgetter" and len(args) == 1 and isinstance(args[0], str) and "." not in args[0]:
+            return Partial("attrgetter", None, args)
+        if name.startswith("operator.") and short in OPERATOR_FUNCS and len(args) == OPERATOR_FUNCS[short][1]:
+            kind_, _ = OPERATOR_FUNCS[short]
+            if kind_[0] == "bin":
+                return self.binop(kind_[1], args[0], args[1])
+            if kind_[0] == "cmp":
+                return self.compare(kind_[1](), args[0], args[1])
+            if kind_[0] == "neg":
+                return self.binop("sub", 0, args[0]) if is_num(args[0]) else Op("neg", (args[0],))
+            if kind_[0] == "not":
+                return (not args[0]) if not isinstance(args[0], Term) else Op("not", (args[0],))
+            if kind_[0] == "getitem":
+                base_ = args[0]
+                return base_[args[1]] if isinstance(base_, (list, tuple, dict)) else Op("getitem", (base_, args[1]))
+        if name == "itertools.count":
+            start_ = args[0] if args else kwargs.get("start", 0)
+            return Op("range", (start_, Sym("unbounded", ("int",))))
+        if name == "itertools.chain":
+            if all(isinstance(self.strip_iter(x_), (list, tuple)) for x_ in args):
+                return [y_ for x_ in args for y_ in self.strip_iter(x_)]
+        if name == "itertools.islice" and isinstance(self.strip_iter(args[0]), (list, tuple)) and all(x_ is None or isinstance(x_, int) for x_ in args[1:]):
+            import itertools as _it
+            return list(_it.islice(self.strip_iter(args[0]), *args[1:]))
         if name in ("copy.copy",):
             o = args[0]
             if isinstance(o, Obj):
@@ -468,8 +581,24 @@ class Interp:
         elif isinstance(st, ast.Return):
             raise _Return(self.eval(st.value, env) if st.value is not None else None)
         elif isinstance(st, ast.If):
+            if self.loop_kinds and not st.orelse and len(st.body) == 1 and isinstance(st.body[0], ast.Break):
+                # `if c: break` in a loop over a sequence of unknown length is the loop condition `not c` tested at this point (the generic
+                # iteration continues with the condition false); in a concrete loop the break is taken when c holds
+                cv = self.eval(st.test, env)
+                if isinstance(cv, Term):
+                    if self.loop_kinds[-1] != "symbolic":
+                        raise Unsupported("break on a symbolic condition inside a loop over a concrete sequence")
+                    self.ev("while_test", cond=cv.args[0] if isinstance(cv, Op) and cv.op == "not" else Op("not", (cv,)), node=st)
+                    return
+                if cv:
+                    raise _Break()
+                return
             c = self.truth(self.eval(st.test, env), st, env)
             self.exec_block(st.body if c else st.orelse, env)
+        elif isinstance(st, ast.Break):
+            raise _Break()
+        elif isinstance(st, ast.Continue):
+            raise _Continue()
         elif isinstance(st, ast.Raise):
             exc = ast.unparse(st.exc) if st.exc is not None else "re-raise"
             self.ev("raise", exc=exc, node=st)
@@ -550,15 +679,23 @@ class Interp:
     def exec_for(self, st, env):
         it = self.eval(st.iter, env)
         it = self.strip_iter(it)
-        if isinstance(it, (list, tuple)) or (isinstance(it, range)):
-            for x in it:
-                self.assign(st.target, x, env, st)
-                self.exec_block(st.body, env)
-            return
-        if isinstance(it, dict):
-            for x in list(it):
-                self.assign(st.target, x, env, st)
-                self.exec_block(st.body, env)
+        if isinstance(it, (list, tuple, range, dict)):
+            self.loop_kinds.append("concrete")
+            try:
+                broke = False
+                for x in list(it):
+                    self.assign(st.target, x, env, st)
+                    try:
+                        self.exec_block(st.body, env)
+                    except _Continue:
+                        continue
+                    except _Break:
+                        broke = True
+                        break
+            finally:
+                self.loop_kinds.pop()
+            if not broke and st.orelse:
+                self.exec_block(st.orelse, env)
             return
         # symbolic iteration: two passes over the body for a generic element / index
         if isinstance(it, Op) and it.op == "range":
@@ -601,12 +738,15 @@ class Interp:
         fid = self.fresh_id
         ctx = {"elem": elem, "desc": desc, "pass": 1}
         self.loop_stack.append(ctx)
+        self.loop_kinds.append("symbolic")
         try:
             body()
         finally:
             self.loop_stack.pop()
+            self.loop_kinds.pop()
         # which tensor-valued cells changed?
         changed = []
+        changed_nt = []
         for c, before in snap_cells:
             for k, v in c.items():
                 if isinstance(k, str) and k.startswith("__") and not k.startswith("__buf_"):
@@ -614,6 +754,9 @@ class Interp:
                 b = before.get(k, None)
                 if b is not v and (isinstance(v, Term) or isinstance(b, Term)) and k in before:
                     changed.append((c, k, b))
+                elif (b is not v and k in before and isinstance(b, Obj) and isinstance(v, Obj) and "namedtuple" in b.tags and "namedtuple" in v.tags and b.cls == v.cls
+                      and any(isinstance(x_, Term) for x_ in list(b.attrs.values()) + list(v.attrs.values()))):
+                    changed_nt.append((c, k, b))  # a named tuple of tensors re-bound in the body: carried field by field
         # restore
         for c, before in snap_cells:
             c.clear()
@@ -629,18 +772,40 @@ class Interp:
             sym = Sym(f"carried:{k}@{elem!r}", ("carried",))
             c[k] = sym
             carried.append((c, k, sym, b))
-        self.ev("loop_begin", var=elem, over=desc, node=st, carried=[(k, b) for _, k, _, b in carried])
+        carried_nt = []
+        for c, k, b in changed_nt:
+            fields_ = b.attrs.get("__fields__", [f_ for f_ in b.attrs if not f_.startswith("__")])
+            fresh_ = Obj(b.cls, b.name + "~", {"__fields__": list(fields_)}, set(b.tags))
+            for f_ in fields_:
+                sym = Sym(f"carried:{k}.{f_}@{elem!r}", ("carried",))
+                fresh_.attrs[f_] = sym
+                carried_nt.append((c, k, f_, sym, b.attrs[f_]))
+            c[k] = fresh_
+        self.ev("loop_begin", var=elem, over=desc, node=st, carried=[(k, b) for _, k, _, b in carried] + [(f"{k}.{f_}", b_) for _, k, f_, _, b_ in carried_nt])
         ctx = {"elem": elem, "desc": desc, "pass": 2}
         self.loop_stack.append(ctx)
+        self.loop_kinds.append("symbolic")
         try:
             body()
         finally:
             self.loop_stack.pop()
+            self.loop_kinds.pop()
         updates = []
         for c, k, sym, b in carried:
             upd = c.get(k)
             updates.append((k, sym, b, upd))
             c[k] = Op("loop", (elem, desc, b, sym, upd))
+        done_ = {}
+        for c, k, f_, sym, b_ in carried_nt:
+            res_ = c.get(k)
+            upd = res_.attrs.get(f_) if isinstance(res_, Obj) else None
+            updates.append((f"{k}.{f_}", sym, b_, upd))
+            done_.setdefault((id(c), k), (c, k, res_, {}))[3][f_] = Op("loop", (elem, desc, b_, sym, upd))
+        for c, k, res_, fields_ in done_.values():
+            if isinstance(res_, Obj):
+                final_ = Obj(res_.cls, res_.name + "*", dict(res_.attrs), set(res_.tags))
+                final_.attrs.update(fields_)
+                c[k] = final_
         self.ev("loop_end", var=elem, over=desc, node=st, updates=updates)
 
     def exec_while(self, st, env):
@@ -659,6 +824,8 @@ class Interp:
         # transparent iterator wrappers
         while isinstance(it, Op) and it.op in ("ext:tqdm.tqdm", "ext:tqdm"):
             it = it.args[0]
+        if isinstance(it, Obj) and "namedtuple" in it.tags:
+            return Interp.nt_values(it)
         return it
 
     # ------------------------------------------------------------------ assignment
@@ -730,6 +897,8 @@ class Interp:
     def unpack(self, v, n, node):
         if isinstance(v, (tuple, list)):
             return list(v)
+        if isinstance(v, Obj) and "namedtuple" in v.tags:
+            return self.nt_values(v)
         if isinstance(v, Term):
             return [Op("getitem", (v, i)) for i in range(n)]
         if isinstance(v, dict):
@@ -951,6 +1120,8 @@ class Interp:
     def eval_Subscript(self, e, env):
         base = self.eval(e.value, env)
         idx = self.eval_index(e.slice, env)
+        if isinstance(base, Obj) and "namedtuple" in base.tags and (isinstance(idx, (int, slice)) and not isinstance(idx, bool)):
+            base = tuple(self.nt_values(base))
         if isinstance(base, (list, tuple)) and not hasattr(base, "_fields") and isinstance(idx, int) and not isinstance(idx, bool) and not (-len(base) <= idx < len(base)):
             raise PathRaises(f"IndexError: index {idx} of a sequence of {len(base)}", e)
         if isinstance(base, (list, tuple)) and isinstance(idx, int) and base and isinstance(base[idx], Op) and base[idx].op == "forall":
@@ -1040,6 +1211,10 @@ class Interp:
         raise Unsupported(f"getattr {attr} of {type(o).__name__}")
 
     def getattr_obj(self, o, attr, node):
+        if "namedtuple" in o.tags and attr in ("_asdict", "_replace", "_fields", "count", "index") and attr not in o.attrs:
+            if attr == "_fields":
+                return tuple(o.attrs.get("__fields__", []))
+            return ("namedtuple_method", o, attr)
         if attr == "_buffers" and "_buffers" not in o.attrs and any(k.startswith("__buf_") for k in o.attrs):
             return {k[6:]: v for k, v in o.attrs.items() if k.startswith("__buf_")}
         if attr in o.attrs:
@@ -1378,6 +1553,10 @@ class Interp:
             if is_num(a[0]):
                 return int(a[0]) if name == "int" else float(a[0])
             return Op("py_" + name, tuple(a))
+        if name == "bool":
+            if not a:
+                return False
+            return self.truth(a[0], node, env)
         if name in ("str", "repr"):
             return "<str>"
         if name in ("abs", "min", "max", "sum", "round") and all(is_num(x) for x in a):
@@ -1449,6 +1628,18 @@ class Interp:
         kind, recv, attr = f
         if kind == "tensor_method":
             return self.tensor_method(recv, attr, args, kwargs, node)
+        if kind == "namedtuple_method":
+            fields_ = recv.attrs.get("__fields__", [])
+            if attr == "_asdict":
+                return {f_: recv.attrs[f_] for f_ in fields_}
+            if attr == "_replace":
+                c_ = Obj(recv.cls, recv.name + "'", dict(recv.attrs), set(recv.tags))
+                for k_, v_ in kwargs.items():
+                    if k_ not in fields_:
+                        raise PathRaises(f"ValueError: unexpected field {k_}", node)
+                    c_.attrs[k_] = v_
+                return c_
+            raise Unsupported("namedtuple." + attr)
         if kind == "object_setattr_method":
             recv.attrs[args[0]] = args[1]
             self.ev("obj_setattr", obj=recv, attr=args[0], value=args[1], node=node)
@@ -1559,6 +1750,9 @@ MODULE_METHODS = {"register_buffer", "get_buffer", "register_forward_hook", "tra
                   "named_parameters", "zero_grad", "state_dict", "load_state_dict", "buffers", "named_buffers", "modules",
                   "float", "double", "half", "cpu", "cuda", "apply", "requires_grad_"}
 
+OPERATOR_FUNCS = {"add": (("bin", "add"), 2), "sub": (("bin", "sub"), 2), "mul": (("bin", "mul"), 2), "truediv": (("bin", "div"), 2), "pow": (("bin", "pow"), 2),
+                  "floordiv": (("bin", "floordiv"), 2), "mod": (("bin", "mod"), 2), "neg": (("neg",), 1), "not_": (("not",), 1), "getitem": (("getitem",), 2),
+                  "lt": (("cmp", ast.Lt), 2), "le": (("cmp", ast.LtE), 2), "gt": (("cmp", ast.Gt), 2), "ge": (("cmp", ast.GtE), 2), "eq": (("cmp", ast.Eq), 2), "ne": (("cmp", ast.NotEq), 2)}
 TORCH_DTYPES = {"float16", "float32", "float64", "bfloat16", "half", "float", "double", "int8", "int16", "int32", "int64", "uint8", "long", "int", "short", "bool", "complex64", "complex128"}
 BUILTINS = {"id", "callable", "len", "range", "list", "tuple", "map", "zip", "any", "all", "isinstance", "issubclass", "hasattr", "getattr",
             "setattr", "int", "float", "str", "repr", "abs", "min", "max", "sum", "round", "sorted", "reversed", "print",
